@@ -24,7 +24,7 @@ use crate::StreamId;
 use crate::bucket::event_index::OpenEventIndex;
 use crate::bucket::partition_index::{OpenPartitionIndex, PartitionIndexRecord};
 use crate::bucket::segment::{
-    BucketSegmentReader, BucketSegmentWriter, COMMIT_SIZE, EVENT_HEADER_SIZE, LongBytes, RawCommit,
+    BucketSegmentReader, BucketSegmentWriter, COMMIT_SIZE, CommittedEvents, EVENT_HEADER_SIZE, LongBytes, RawCommit,
     RawEvent, RecordHeader, SEGMENT_HEADER_SIZE, ShortString,
 };
 use crate::bucket::stream_index::{OpenStreamIndex, StreamIndexRecord};
@@ -314,12 +314,32 @@ impl Worker {
         let now = Instant::now();
         for &bucket_id in bucket_ids.iter() {
             if bucket_id_to_thread_id(bucket_id, bucket_ids, num_threads) == Some(thread_id) {
-                let (bucket_segment_id, writer) =
+                let (bucket_segment_id, mut writer) =
                     BucketSegmentWriter::latest(bucket_id, &dir, segment_size, compression)?;
                 let mut reader = BucketSegmentReader::open(
                     SegmentKind::Events.get_path(&dir, bucket_segment_id),
                     Some(writer.flushed_offset()),
                 )?;
+
+                // A crash between a transaction's events and its commit record leaves valid but
+                // uncommitted records at the end of the live segment. Drop them, or they would
+                // be indexed (and their sequences and versions consumed) as if committed.
+                let committed_end = {
+                    let mut end = SEGMENT_HEADER_SIZE as u64;
+                    let mut iter = reader.iter();
+                    while let Some(committed) = iter.next_committed_events()? {
+                        end = match &committed {
+                            CommittedEvents::Single(event) => event.offset + event.size,
+                            CommittedEvents::Transaction { commit, .. } => {
+                                commit.offset + COMMIT_SIZE as u64
+                            }
+                        };
+                    }
+                    end
+                };
+                if committed_end < writer.write_offset() {
+                    writer.set_len(committed_end)?;
+                }
 
                 let mut event_index = OpenEventIndex::open(
                     bucket_segment_id,
